@@ -19,7 +19,7 @@ META = {
                   'size, its validate/bind verdicts on valid DNAs and on TLC-generated one-step corruptions, its random '
                   'DNAs and the Sweeping proposals are recorded and TLC evaluates the property\'s set equalities on them.',
     'level_note': 'Bounded: specs with <= 3 decision points per space, <= 3 (4) candidates, conditional nesting depth <= 2, '
-                  'space size <= 60 (quick) / 200 (thorough); corruptions are one step away from a sample of valid DNAs '
+                  'space size <= 200 in the model, <= 30 (quick) / 100 (thorough) when run on the real code; corruptions are one step away from a sample of valid DNAs '
                   'per spec; floats are judged on the atom classes {below, min, inside, max, above} with an RNG stub '
                   'answering min/middle/max; custom decision points accept any string. Trusted: TLC, the JSON bridge, '
                   'the projection DNA -> (value, children) tree.',
@@ -132,29 +132,36 @@ def run(chk):
       'stub whose uniform(a, b) answers a, the middle or b',
       'custom decision points use a user random_dna_fn returning one of two fixed strings (any string is valid)',
       'any exception raised by validate / DNA(spec=) counts as a rejection (messages and classes are not compared)']
-  # 1. the model: odometer transition system, valid set, size recurrences
-  r = tlc.run('Geno', cfg['model'], timeout=1500)
+  # 1./2. TLC: the model (odometer transition system, valid set, size recurrences), the design-level search on the
+  # transcription of validate (intended rules: no gap to Valid on the one-step corruptions; today's rules must yield
+  # TLC's counter-example), and the export of universe + probes -- independent runs, started together
+  salt = {'SALT': str(chk.seed)}
+  with geno.phase(chk, 'tlc_model_and_export'):
+    res = geno.tlc_jobs({
+        'model': lambda: tlc.run('Geno', cfg['model'], timeout=1500),
+        'v_int': lambda: tlc.run('GenoValidate', 'C11_validate_intended.cfg', timeout=900, workers=4),
+        'v_asc': lambda: tlc.run('GenoValidate', 'C11_validate_ascoded.cfg', timeout=900, workers=4,
+                                 allow_violation=True),
+        'export': lambda: tlc.export_json('GenoExport', cfg['export'], env=salt, timeout=900),
+        'export_inf': lambda: tlc.export_json('GenoExport', cfg['export_inf'], env=salt, timeout=900),
+    })
+  r = res['model']
   chk.add_tlc(r)
   chk.notes['model'] = r.summary()
   if not r.ok:
     raise tlc.TLCError(f'{cfg["model"]}: {r.violated} violated in the model (specification defect):\n' + r.out[-3000:])
   chk.require(r.distinct > 1000, f'vacuous: odometer model explored only {r.distinct} states')
-  # 1b. design-level search on the transcription of validate: the intended acceptor has no gap to Valid on the
-  # one-step corruptions; today's rules (AsCoded) must yield TLC's counter-example (negative index / stray value)
-  rv = tlc.run('GenoValidate', 'C11_validate_intended.cfg', timeout=900)
+  rv, ra = res['v_int'], res['v_asc']
   chk.add_tlc(rv)
   if not rv.ok:
     raise tlc.TLCError(f'C11_validate_intended.cfg: {rv.violated} violated (specification defect):\n' + rv.out[-3000:])
-  ra = tlc.run('GenoValidate', 'C11_validate_ascoded.cfg', timeout=900, allow_violation=True)
   chk.add_tlc(ra, count_states=False)
   chk.notes['validate_as_coded_model'] = dict(ra.summary(), note='AsCoded = TRUE transcribes today\'s validate; TLC is '
                                               'expected to violate NoGap (an invalid one-step corruption is accepted); '
                                               'the observed-relation check below meets the same inputs on the real code')
   chk.require((not ra.ok) and ra.violated == 'NoGap',
               'the as-coded validate model no longer violates NoGap: the model lost its sensitivity')
-  # 2. universe + probes out of TLC
-  entries, r1 = tlc.export_json('GenoExport', cfg['export'], env={'SALT': str(chk.seed)}, timeout=900)
-  inf_entries, r2 = tlc.export_json('GenoExport', cfg['export_inf'], env={'SALT': str(chk.seed)}, timeout=900)
+  (entries, r1), (inf_entries, r2) = res['export'], res['export_inf']
   chk.add_tlc(r1, count_states=False)
   chk.add_tlc(r2, count_states=False)
   chk.require(len(entries) >= 500, f'vacuous: only {len(entries)} finite specs exported')
